@@ -622,6 +622,7 @@ func (c *clipperBase) doSplitOp(outrec *OutRec, splitOp *OutPt) {
 	}
 
 	if !(absArea2 > 1 && (absArea2 > absArea1 || (area2 > 0) == (area1 > 0))) {
+		verifSplitDiscard(ip, splitOp.pt, splitOp.next.pt, area1, area2)
 		return
 	}
 
